@@ -78,6 +78,12 @@ fn cmd_vm(a: &Args) {
     let fam = a.s("fam", "mix");
     let mut out = Out::new(&a.s("out", "vm.ndjson"));
     let mut r = vm::gen_random_seeded(seed);
+    if fam == "optable" {
+        vm::optable(&mut out);
+        let n = out.finish();
+        println!("{}", json!({"records": n}));
+        return;
+    }
     for i in 0..n {
         let (name, ops) = match fam.as_str() {
             "uniform" => ("uniform", vm::gen_uniform(&mut r)),
